@@ -87,6 +87,8 @@ class HandoverServer(threading.Thread):
                         if not socket.send(fragment):
                             return  # connection closed
 
+                    break  # answered, the next request starts afresh
+
         except nfc.llcp.Error as error:
             (log.debug if error.errno == errno.EPIPE else log.error)(error)
         finally:
